@@ -8,10 +8,13 @@ import Driver.Util
                `intRepr`, read back through `intsParse`); the five float vectors: hex tokens `,`-separated)
   morph <shape n,..|-> <vals u32,..|-> <fnum>
   annot <origIds 0|1> <fill 0|1> <has5 0|1> <labels int,..|-> <rows r:g:b:t:a;..|-> <names hex;..|->
+  annotU <origIds> <fill> <has5> <labels nat,..|-> <rows> <names>   write_annot with an UNSIGNED label dtype
   annot2 <fill 0|1> <has5 0|1> <labels> <rows> <names> <rgb r:g:b;..|-> <fill2 0|1>
         history: write_annot; read_annot; ctab[:, :3] = rgb; write_annot(fill_ctab=fill2); read_annot
   mgh   <shape> <dtype> <data u32,..|-> <affDelta u32,u32,u32> <ras hex (48 bytes)> <setZ `_`|u32,..|-> <ftrSets i:v;..|->
   mghload <file hex>                   MGHHeader.from_fileobj + data_from_fileobj on arbitrary file bytes
+  mghresave <file hex> <setZ `_`|u32,..|-> <ftrSets i:v;..|->
+        history: load(file); [header.set_zooms]; header[footer field] = v ...; save(other); load(other)
   zoom  <shape> <zs u32,..|->          bare MGHHeader: set_data_shape(shape); set_zooms(zs)
   hex tokens: `-` = empty byte string inside `;`/space separated fields, `_` inside `,` lists. -/
 namespace Nb.Drv.C19
@@ -118,6 +121,11 @@ def parseOptNatList? (s : String) : Option (Option (List Nat)) :=
 def allBytes (bs : Bytes) : Bool := bs.all (· < 256)
 def allU32 (l : List Nat) : Bool := l.all (· < 4294967296)
 
+def showFull (l : MghFull) (data : List Nat) : String :=
+  "dims=" ++ showList l.h.dims.toList ++ " shape=" ++ showList (getDataShape l.h.dims) ++ " code=" ++ toString l.h.code ++
+    " dof=" ++ toString l.dof ++ " good=" ++ toString l.good ++ " zooms=" ++ showList (getZooms l.h) ++
+    " ras=" ++ hexOf l.ras ++ " ftr=" ++ showList l.h.ftr ++ " data=" ++ showList data
+
 def handle : List String → String
   | ["geom", rmeta, stamp, nv, nf, coords, faces, vol] =>
       match parseBool? rmeta, parseHex? stamp, nv.toNat?, nf.toNat?, parseNatList? coords, parseIntList? faces,
@@ -157,6 +165,15 @@ def handle : List String → String
             | .ok a => "ok " ++ hexOf file ++ " labels=" ++ showList a.labels ++ " ctab=[" ++
                 ",".intercalate (a.ctab.map showRow) ++ "] names=" ++ showHexList a.names
       | _, _, _, _, _, _ => "bad-op"
+  | ["annotU", _orig, fill, has5, labels, rows, names] =>
+      match parseBool? _orig, parseBool? fill, parseBool? has5, parseIntList? labels, parseRows? rows,
+            parseHexList? ";" names with
+      | some _, some fill, some has5, some labels, some rows, some names =>
+          if labels.any (· < 0) then "bad-op" else
+          match writeAnnotUnsigned labels rows has5 names fill with
+          | .error e => errStr e
+          | .ok file => "ok " ++ hexOf file
+      | _, _, _, _, _, _ => "bad-op"
   | ["annot2", fill, has5, labels, rows, names, rgb, fill2] =>
       match parseBool? fill, parseBool? has5, parseIntList? labels, parseRows? rows, parseHexList? ";" names,
             parseRgb? rgb, parseBool? fill2 with
@@ -187,6 +204,14 @@ def handle : List String → String
               " code=" ++ toString h.code ++ " zooms=" ++ showList (getZooms h) ++ " ras=" ++ hexOf ras ++
               " ftr=" ++ showList h.ftr ++ " data=" ++ showList data
       | none => "bad-op"
+  | ["mghresave", file, setz, sets] =>
+      match parseHex? file, parseOptNatList? setz, parseSets? sets with
+      | some file, some setz, some sets =>
+          if !((setz.map allU32).getD true) || !(allU32 (sets.map (·.2))) then "bad-op" else
+          match mghResave file setz sets with
+          | .error e => errStr e
+          | .ok (l1, d1, f2, l2, d2) => "ok l1={" ++ showFull l1 d1 ++ "} file=" ++ hexOf f2 ++ " l2={" ++ showFull l2 d2 ++ "}"
+      | _, _, _ => "bad-op"
   | ["zoom", shape, zs] =>
       match parseNatList? shape, parseNatList? zs with
       | some shape, some zs =>
